@@ -56,10 +56,15 @@ def make_core (threaded=False, epoll=False, silent=True):
   """
   boot()
   import pox.core
-  import pox.lib.recoco.recoco as rc
   if pox.core.core is not None:
     raise Inconclusive("second core in one process")
-  RealScheduler = rc.Scheduler
+  # pox.core refers to the scheduler class as pox.core.recoco.Scheduler
+  # (the pox.lib.recoco package namespace)
+  try:
+    ns = pox.core.recoco
+    RealScheduler = ns.Scheduler
+  except AttributeError as e:
+    raise AdapterError("pox.core.recoco.Scheduler: %r" % (e,))
   if not threaded:
     def factory (*args, **kw):
       kw['startInThread'] = False
@@ -67,14 +72,18 @@ def make_core (threaded=False, epoll=False, silent=True):
       kw.setdefault('daemon', True)
       return RealScheduler(*args, **kw)
     try:
-      rc.Scheduler = factory
+      ns.Scheduler = factory
       import io, contextlib
       with contextlib.redirect_stdout(io.StringIO()):
         core = pox.core.initialize(threaded_selecthub=False,
                                    epoll_selecthub=epoll,
                                    handle_signals=False)
     finally:
-      rc.Scheduler = RealScheduler
+      ns.Scheduler = RealScheduler
+    import threading
+    if core.scheduler._thread is not None or \
+       core.scheduler._selectHub._thread is not None:
+      raise AdapterError("scheduler started threads although asked not to")
   else:
     import io, contextlib
     with contextlib.redirect_stdout(io.StringIO()):
